@@ -236,6 +236,81 @@ def w_guard(arg):
     return res
 
 
+def w_fault(arg):
+    """Faults while format_file writes: the file size limit of the process is lowered to k bytes (RLIMIT_FSIZE with SIGXFSZ ignored: the kernel
+    refuses every byte past k with EFBIG, which is what a full disk or an exhausted quota looks like to the writer), format_file is called and may
+    raise; afterwards the file on disk is read back. A file that was valid must still be valid, whatever the fault."""
+    import pathlib
+    import resource
+    import shutil
+    import signal
+    import tempfile
+
+    from .. import hooks
+
+    m = hooks.mods()
+    main = m["main"]
+    res = {"fault_cases": 0, "faults_hit": 0, "fault_outcomes": {}, "violations": [], "nontrivial": []}
+    tmp = pathlib.Path(tempfile.mkdtemp(prefix="c03fault-"))
+    real_format_code = main.format_code
+    soft, hard = resource.getrlimit(resource.RLIMIT_FSIZE)
+    old_handler = signal.signal(signal.SIGXFSZ, signal.SIG_IGN)
+    try:
+        for case in arg["cases"]:
+            initial, returned, safe, limit = case["initial"], case["returned"], case["safe"], case["limit"]
+            path = tmp / case.get("name", "mod.py")
+            for leftover in tmp.iterdir():
+                leftover.unlink()
+            path.write_text(initial, encoding="utf-8")
+            if case.get("mode") is not None:
+                os.chmod(path, case["mode"])
+            want = returned if returned is not None else real_format_code(initial, safe=safe, keep_imports=path.name == "__init__.py")
+            if returned is not None:
+                main.format_code = lambda source, **kw: returned
+            k = {"zero": 0, "one": 1, "half": len(want.encode()) // 2, "all_but_one": max(len(want.encode()) - 1, 0), "third": len(want.encode()) // 3,
+                 "none": None}[limit] if isinstance(limit, str) else limit
+            exc = None
+            try:
+                if k is not None:
+                    resource.setrlimit(resource.RLIMIT_FSIZE, (k, hard))
+                try:
+                    rv = main.format_file(path, safe=safe)
+                except BaseException as e:  # an I/O error may propagate: the claim is about the file
+                    rv, exc = None, f"{type(e).__name__}: {e}"
+            finally:
+                resource.setrlimit(resource.RLIMIT_FSIZE, (soft, hard))
+                main.format_code = real_format_code
+            after = path.read_bytes().decode("utf-8", "replace") if path.exists() else None
+            mode_after = (path.stat().st_mode & 0o7777) if path.exists() else None
+            others = sorted(x.name for x in tmp.iterdir() if x != path)
+            res["fault_cases"] += 1
+            res["faults_hit"] += exc is not None
+            outcome = "missing" if after is None else "old" if after == initial else "new" if after == want else "empty" if after == "" else "other"
+            res["fault_outcomes"][f"{'fault' if exc else 'clean'}:{outcome}"] = res["fault_outcomes"].get(f"{'fault' if exc else 'clean'}:{outcome}", 0) + 1
+            res["nontrivial"].append(env.digest(repr((initial, returned, safe, k))))
+
+            def viol(kind, extra=None):
+                res["violations"].append({"kind": kind, "input": initial, "detail": dict({"returned_by_format_code": returned, "file_after": after, "return_value": rv, "safe": safe,
+                                                                                         "size_limit_bytes": k, "exc": exc, "other_files_in_folder": others}, **(extra or {})),
+                                          "replay": {"fn": "harness.checks.c03:w_fault", "arg": {"cases": [case]}}})
+
+            if after is None:
+                viol("file_lost_by_a_write_fault")
+                continue
+            if _valid(initial) and not _valid(after):
+                viol("valid_file_replaced_by_invalid_one", {"fault": f"write refused after {k} bytes (EFBIG)"})
+            if exc is None and want != initial and _valid(initial) and _valid(want) and after != want:
+                viol("file_content_is_neither_old_nor_new", {"fault": f"size limit {k}, no exception"})
+            if exc is None and case.get("mode") is not None:  # not part of the statement: evidence only
+                res["mode_kept" if mode_after == case["mode"] else "mode_changed"] = res.get("mode_kept" if mode_after == case["mode"] else "mode_changed", 0) + 1
+    finally:
+        resource.setrlimit(resource.RLIMIT_FSIZE, (soft, hard))
+        signal.signal(signal.SIGXFSZ, old_handler)
+        main.format_code = real_format_code
+        shutil.rmtree(tmp, ignore_errors=True)
+    return res
+
+
 def _valid(text):
     try:
         ast.parse(text)
@@ -255,6 +330,22 @@ def guard_cases():
             for safe in (False, True):
                 for fname in ("mod.py", "__init__.py"):
                     cases.append({"initial": initial, "returned": returned, "safe": safe, "name": fname, "label": f"{iname}->{rname}"})
+    return cases
+
+
+LONG = "import os\n\n\ndef f(x):\n    values = [\n" + "".join(f"        (x + {i}, 'item {i}'),\n" for i in range(40)) + "    ]\n    return os.sep, values\n\n\nprint(len(f(1)[1]))\n"
+LONG2 = LONG.replace("item", "entry")
+
+
+def fault_cases(examples):
+    cases = []
+    for iname, initial, returned in (("short", VALID, VALID2), ("long", LONG, LONG2), ("short->long", VALID, LONG2), ("long->short", LONG, VALID2),
+                                     ("no_newline", VALID.rstrip("\n"), VALID2), ("invalid->valid", INVALID, VALID2)):
+        for limit in ("zero", "one", "third", "half", "all_but_one", "none"):
+            for safe, fname in ((False, "mod.py"), (True, "__init__.py")):
+                cases.append({"initial": initial, "returned": returned, "safe": safe, "name": fname, "limit": limit, "label": f"{iname}@{limit}", "mode": 0o640 if safe else 0o755})
+    for i, (o, t) in enumerate(examples):
+        cases.append({"initial": t, "returned": None, "safe": bool(i % 2), "name": "mod.py", "limit": ("third", "half", "all_but_one", "one")[i % 4], "label": f"real:{o}", "mode": None})
     return cases
 
 
@@ -297,7 +388,8 @@ def main() -> int:
     real_files = [{"initial": t, "returned": None, "safe": bool(i % 2), "name": "mod.py" if i % 3 else "__init__.py", "label": "real"} for i, (o, t) in
                   enumerate(r.sample(ex, 120 if thorough else 40))]
     gcases = guard_cases() + real_files
-    tot, tot_g, tot_s, tot_d = {}, {}, {}, {}
+    fcases = fault_cases([(o, t) for o, t in r.sample(ex, 160 if thorough else 40) if _valid(t)])
+    tot, tot_g, tot_s, tot_d, tot_f = {}, {}, {}, {}, {}
     dcases = [{"id": o, "source": t, "n": 8} for o, t in r.sample(ex, 300 if thorough else 100) if _valid(t)]
     with pool.Pool() as p:
         reps = p.map("harness.checks.c03:w_direct", [{"cases": dcases[i:i + 10]} for i in range(0, len(dcases), 10)], cpu_s=600)
@@ -316,6 +408,11 @@ def main() -> int:
         for rep in reps:
             if rep.get("status") == "ok":
                 _merge(tot_g, rep["value"])
+        reps = p.map("harness.checks.c03:w_fault", [{"cases": fcases[i:i + 8]} for i in range(0, len(fcases), 8)], cpu_s=600)
+        verdict.pool_failures(v, reps, "C03 write faults")
+        for rep in reps:
+            if rep.get("status") == "ok":
+                _merge(tot_f, rep["value"])
         items = [{"id": o, "text": t, "n": 3} for o, t in r.sample(ex, 300 if thorough else 80)]
         gen = p.map("harness.checks.c14:w_gen", [{"items": items[i:i + 8]} for i in range(0, len(items), 8)], cpu_s=600)
         scases = [dict(pattern=a, repl=b, source=s, count=c) for a, b, s, c in c14.HOSTILE]
@@ -327,15 +424,17 @@ def main() -> int:
         for rep in reps:
             if rep.get("status") == "ok":
                 _merge(tot_s, rep["value"])
-    for t in (tot, tot_g, tot_s, tot_d):
+    for t in (tot, tot_g, tot_s, tot_d, tot_f):
         v.extend(t.get("violations", []))
     if tot.get("steps_changed", 0) == 0:
         v.inconclusive_because("no rule changed any text: the validity post-condition was never exercised")
     if tot_g.get("guard_cases", 0) == 0:
         v.inconclusive_because("the write guard was never driven")
-    nontrivial = set(tot.get("nontrivial", [])) | set(tot_g.get("nontrivial", [])) | set(tot_s.get("nontrivial", [])) | set(tot_d.get("nontrivial", []))
+    if tot_f.get("faults_hit", 0) == 0:
+        v.inconclusive_because("no injected write fault was ever hit: the crash-point monitor observed nothing")
+    nontrivial = set(tot.get("nontrivial", [])) | set(tot_g.get("nontrivial", [])) | set(tot_s.get("nontrivial", [])) | set(tot_d.get("nontrivial", [])) | set(tot_f.get("nontrivial", []))
     cov = {
-        "evaluations": tot.get("cases", 0) + tot_g.get("guard_cases", 0) + tot_s.get("sub_calls", 0) + tot_d.get("direct_calls", 0),
+        "evaluations": tot.get("cases", 0) + tot_g.get("guard_cases", 0) + tot_s.get("sub_calls", 0) + tot_d.get("direct_calls", 0) + tot_f.get("fault_cases", 0),
         "distinct_nontrivial": len(nontrivial),
         "rule": "validity: a case = one valid input through format_code (every rule step inside is checked) and through each pipeline rule alone; "
                 "non-trivial = a (rule, input) pair where the rule changed the text. Write guard: a case = one (file content, text returned by the "
@@ -345,6 +444,9 @@ def main() -> int:
         "rules_that_changed_text": len(tot.get("rules_changed", {})),
         "write_guard": {"combinations": len(guard_cases()), "real_files": len(real_files), "cases": tot_g.get("guard_cases"), "writes_seen": tot_g.get("writes_seen"),
                         "fault_enumeration_complete": True},
+        "write_faults": {"cases": tot_f.get("fault_cases"), "faults_hit": tot_f.get("faults_hit"), "file_after_by_outcome": tot_f.get("fault_outcomes"),
+                         "mode_kept": tot_f.get("mode_kept", 0), "mode_changed": tot_f.get("mode_changed", 0),
+                         "fault": "RLIMIT_FSIZE lowered to 0 / 1 / a third / half / all but one byte of the new content while format_file runs (EFBIG past the limit)"},
         "sub": {k: tot_s.get(k) for k in ("sub_calls", "sub_changed")},
         "direct_edit_fault_injection": {k: tot_d.get(k) for k in ("direct_calls", "direct_invalid_candidates")},
     }
